@@ -46,15 +46,15 @@ import (
 func init() { props["C16"] = runC16 }
 
 const (
-	c16NotYet   = 0
-	c16WaitEp   = 1
-	c16WaitTot  = 2
-	c16InFlight = 3
-	c16DoneOk   = 4
-	c16ErrEp    = 5
-	c16ErrTot   = 6
-	c16Bad      = 7 // panic, unexpected result
-	c16Hang     = 8 // goroutine never came to rest
+	c16NotYet     = 0
+	c16WaitEp     = 1
+	c16WaitTot    = 2
+	c16InFlight   = 3
+	c16DoneOk     = 4
+	c16ErrEp      = 5
+	c16ErrTot     = 6
+	c16Bad        = 7  // panic, unexpected result
+	c16Hang       = 8  // goroutine never came to rest
 	c16Cancelling = 10 // parked at the scheduling point "ep-ctx-done" (cancelled, noticed, not yet acted)
 )
 
